@@ -178,7 +178,7 @@ theorem deliver_D {inp : RunInput} {s : Sys} {n : Name} {lt : Bool} {nd : Node} 
 
 /-! ### `_node_add_wait_run` -/
 
-theorem absorbDone_D {inp : RunInput} {s : Sys} {n : Name} {lt : Bool} (isCalc : Bool) : ∀ (ds : List Name) (nd : Node),
+theorem absorbDone_D {inp : RunInput} [NoFailDeliver inp] {s : Sys} {n : Name} {lt : Bool} (isCalc : Bool) : ∀ (ds : List Name) (nd : Node),
     NodeD inp s n lt nd → (∀ d ∈ ds, if isCalc = true then d ∈ nd.dynCalc else Src inp n lt nd d) →
     NodeD inp s n lt (absorbDone inp s isCalc ds nd) := by
   intro ds
@@ -186,7 +186,7 @@ theorem absorbDone_D {inp : RunInput} {s : Sys} {n : Name} {lt : Bool} (isCalc :
   | nil => intro nd h _; exact h
   | cons a t ih =>
     intro nd h hq
-    simp only [absorbDone]
+    simp only [absorbDone, deliverF_id (inp := inp)]
     by_cases hu : unfinished s a = true
     · simp only [hu, if_true]; exact ih nd h (fun d hd => hq d (by simp [hd]))
     · simp only [hu, Bool.false_eq_true, if_false]
@@ -210,7 +210,7 @@ theorem absorbDone_D {inp : RunInput} {s : Sys} {n : Name} {lt : Bool} (isCalc :
         simp only [if_true] at this ⊢
         exact g2.dynCalc d (g1.dynCalc d this)
 
-theorem waitNode_D {inp : RunInput} {s : Sys} {n : Name} {lt : Bool} {nd : Node} (ds : List Name) (isCalc : Bool)
+theorem waitNode_D {inp : RunInput} [NoFailDeliver inp] {s : Sys} {n : Name} {lt : Bool} {nd : Node} (ds : List Name) (isCalc : Bool)
     (pc' : PC) (h : NodeD inp s n lt nd)
     (hds : ∀ d ∈ ds, if isCalc = true then d ∈ nd.dynCalc else Src inp n lt nd d) :
     NodeD inp s n lt (waitNode inp s nd ds isCalc pc') := by
@@ -301,7 +301,7 @@ theorem NodeS.setStatus {inp : RunInput} {s : Sys} {n : Name} {nd : Node} (st' :
     (hne : st' ≠ .none) : NodeS inp s n { nd with status := st' } :=
   ⟨h.1.ctl rfl rfl rfl rfl rfl rfl rfl rfl rfl rfl, fun _ => hne⟩
 
-theorem waitNode_S {inp : RunInput} {s : Sys} {n : Name} {nd : Node} (ds : List Name) (isCalc : Bool) (pc' : PC)
+theorem waitNode_S {inp : RunInput} [NoFailDeliver inp] {s : Sys} {n : Name} {nd : Node} (ds : List Name) (isCalc : Bool) (pc' : PC)
     (h : NodeS inp s n nd)
     (hds : ∀ d ∈ ds, if isCalc = true then d ∈ nd.dynCalc else Src inp n pc'.late nd d)
     (hl : nd.pc.late = true → pc'.late = true) (hp : pc'.ph2 = true → nd.pc.ph2 = true ∨ nd.status ≠ .none) :
